@@ -94,6 +94,11 @@ def run_item(item):
             df = popgen.population(rng, d, n_hh=1, params=params, archetypes=["family_m"])
     else:
         df = popgen.population(rng, d, n_hh=item["n_hh"], params=params)
+    if item["k"] % 2 == 1:
+        # large sparse ids: derived ids (hh_id * 100 ...) exceed 10**5 and rows of a group are not adjacent after permutation
+        pm = popgen.random_injective(rng, df["p_id"].tolist(), 50000)
+        hm = popgen.random_injective(rng, sorted(df["hh_id"].unique().tolist()), 15000)
+        df = popgen.relabel(df, pm, {h: v + 1000 for h, v in hm.items()})
     base, nodes, roots, dag, fn = env.trace(df, params, functions)
     kinds = env.classify(fn)
     res = dict(date=item["date"], k=item["k"], persons=len(df), households=int(df.hh_id.nunique()),
